@@ -2983,3 +2983,167 @@ Proof.
   apply stable_line_clears; unfold on_snd; cbn [snd]; [|apply l010_line_idem].
   intros p Hp. rewrite f10_lead in Hp. apply take_l_incl in Hp. apply Hw. eapply clines_in_text; eassumption.
 Qed.
+
+(* ------------------------------------------------------------------------------------------------ *)
+(* byte level, for texts made of ASCII bytes *)
+Definition ascc (c : ch) : Prop := exists b, b < 128 /\ c = asc b.
+Definition ascl (l : list ch) : Prop := forall c, In c l -> ascc c.
+
+Lemma decode_go_ascii : forall s, ascii_bytes s = true -> decode_go 0 s = map asc s.
+Proof.
+  induction s as [|b t IH]; intro H; [reflexivity|]. cbn in H. apply andb_prop in H. destruct H as [H1 H2].
+  cbn [decode_go dec1]. rewrite H1. cbn [asc raw length Nat.sub map]. f_equal. apply IH. exact H2.
+Qed.
+
+Lemma decode_ascii : forall s, ascii_bytes s = true -> decode s = map asc s.
+Proof. exact decode_go_ascii. Qed.
+
+Lemma ascl_map_asc : forall s, ascii_bytes s = true -> ascl (map asc s).
+Proof.
+  intros s H c Hc. apply in_map_iff in Hc. destruct Hc as (b & E & Hb). subst. exists b. split; [|reflexivity].
+  unfold ascii_bytes in H. rewrite forallb_forall in H. apply N.ltb_lt. apply H. exact Hb.
+Qed.
+
+Lemma encode_ascl : forall l, ascl l -> ascii_bytes (encode l) = true /\ map asc (encode l) = l.
+Proof.
+  induction l as [|c t IH]; intro H; [split; reflexivity|].
+  destruct (H c (or_introl eq_refl)) as (b & Hb & E). subst c.
+  destruct IH as [I1 I2]; [intros x Hx; apply H; right; exact Hx|].
+  unfold encode in *. cbn [flat_map asc raw app]. cbn [ascii_bytes forallb map]. split.
+  - apply andb_true_intro. split; [apply N.ltb_lt; exact Hb|exact I1].
+  - f_equal. exact I2.
+Qed.
+
+Lemma decode_encode_ascl : forall l, ascl l -> decode (encode l) = l.
+Proof. intros l H. destruct (encode_ascl l H) as [H1 H2]. rewrite decode_ascii by exact H1. exact H2. Qed.
+
+
+Lemma onbytes_idem : forall f, (forall l, ascl l -> ascl (f l)) -> (forall t, f (f t) = f t) ->
+  forall s, ascii_bytes s = true -> onbytes f (onbytes f s) = onbytes f s.
+Proof.
+  intros f Hk Hi s Hs. unfold onbytes. rewrite (decode_ascii s Hs).
+  rewrite decode_encode_ascl by (apply Hk; apply ascl_map_asc; exact Hs). rewrite Hi. reflexivity.
+Qed.
+
+(* the fixers keep ASCII texts ASCII *)
+Lemma ascl_nil : ascl [].
+Proof. intros c []. Qed.
+Lemma ascc_spc : ascc spc. Proof. exists 32. split; [reflexivity|reflexivity]. Qed.
+Lemma ascc_nlc : ascc nlc. Proof. exists 10. split; [reflexivity|reflexivity]. Qed.
+
+Lemma ascl_split : forall t l, ascl t -> In l (split_nl t) -> ascl l.
+Proof. intros t l H Hl c Hc. apply H. eapply split_incl; eassumption. Qed.
+
+Lemma ascl_join : forall ls, (forall l, In l ls -> ascl l) -> ascl (join_nl ls).
+Proof.
+  induction ls as [|x r IH]; intro H; [intros c []|]. destruct r as [|y r].
+  - cbn. apply H. left. reflexivity.
+  - rewrite join_cons2. intros c Hc. apply in_app_or in Hc. destruct Hc as [Hc|[Hc|Hc]].
+    + apply (H x (or_introl eq_refl)). exact Hc.
+    + subst. apply ascc_nlc.
+    + apply IH; [intros l Hl; apply H; right; exact Hl|exact Hc].
+Qed.
+
+
+
+Lemma ascl_per_cline : forall f t, (forall l, ascl (chars l) -> ascl (chars (f l))) -> ascl t -> ascl (per_cline f t).
+Proof.
+  intros f t Hf Ht. unfold per_cline. apply ascl_join. intros l Hl. apply in_map_iff in Hl. destruct Hl as (fl & E & Hfl). subst.
+  apply Hf. intros c Hc. apply in_map_iff in Hc. destruct Hc as (p & Ep & Hp). subst. apply Ht. eapply clines_in_text; eassumption.
+Qed.
+
+Lemma ascl_chars_incl : forall (a b : list cc), (forall p, In p a -> In p b) -> ascl (chars b) -> ascl (chars a).
+Proof.
+  intros a b H Hb c Hc. apply in_map_iff in Hc. destruct Hc as (p & Ep & Hp). subst. apply Hb. unfold chars. apply in_map. apply H. exact Hp.
+Qed.
+
+Lemma ascl_l001 : forall t, ascl t -> ascl (l001_fix t).
+Proof.
+  intros t H. apply ascl_per_cline; [|exact H]. intros l Hl. eapply ascl_chars_incl; [|exact Hl]. intros p Hp. eapply trim_r_incl. exact Hp.
+Qed.
+
+Lemma ascl_l002 : forall t, ascl t -> ascl (l002_fix t).
+Proof.
+  intros t H. apply ascl_per_cline; [|exact H]. intros l Hl c Hc. apply in_map_iff in Hc. destruct Hc as (p & Ep & Hp). subst.
+  unfold l002_line, leading_ws in Hp. apply in_app_or in Hp. destruct Hp as [Hp|Hp].
+  - apply in_flat_map in Hp. destruct Hp as (d & Hd & Hp). unfold tab4 in Hp. destruct (is_tab (fst d)).
+    + assert (E : p = (spc, 0)) by (cbn in Hp; intuition). subst. apply ascc_spc.
+    + destruct Hp as [Hp|[]]. subst. apply Hl. unfold chars. apply in_map. eapply take_l_incl. exact Hd.
+  - apply Hl. unfold chars. apply in_map. eapply trim_l_incl. exact Hp.
+Qed.
+
+Lemma ascl_l003 : forall is_space t, ascl t -> ascl (l003_fix is_space t).
+Proof.
+  intros is_space t H. unfold l003_fix, l003_fix_mx. rewrite l003_lines_eq.
+  apply ascl_join. intros l Hl. apply in_map_iff in Hl. destruct Hl as (fl & E & Hfl). subst. apply pass_incl in Hfl.
+  intros c Hc. apply in_map_iff in Hc. destruct Hc as (p & Ep & Hp). subst. apply H. eapply clines_in_text; eassumption.
+Qed.
+
+Lemma l010_scan_in : forall l ps p, In p (l010_scan ps l) -> In p l.
+Proof.
+  induction l as [|d t IH]; intros ps p H; [destruct H|]. cbn [l010_scan] in H. destruct (cspace d).
+  - apply in_app_or in H. destruct H as [H|H]; [destruct ps; [destruct H|destruct H as [H|[]]; left; exact H]|right; eapply IH; exact H].
+  - destruct H as [H|H]; [left; exact H|right; eapply IH; exact H].
+Qed.
+
+Lemma ascl_l010 : forall t, ascl t -> ascl (l010_fix t).
+Proof.
+  intros t H. apply ascl_per_cline; [|exact H]. intros l Hl. eapply ascl_chars_incl; [|exact Hl]. intros p Hp.
+  unfold l010_line in Hp. apply in_app_or in Hp. destruct Hp as [Hp|Hp]; [eapply take_l_incl; exact Hp|].
+  apply l010_scan_in in Hp. eapply trim_l_incl. exact Hp.
+Qed.
+
+Section A7.
+  Variables is_letter is_digit is_space : N -> bool.
+  Variable upper_ascii : N -> option N.
+  Variable keywords : list (list N).
+  Hypothesis up_ascii : forall x u, upper_ascii x = Some u -> u < 128.
+
+  Lemma ascl_l007 : forall t, ascl t -> ascl (l007_fix is_letter is_digit upper_ascii keywords t).
+  Proof.
+    intros t H. apply ascl_per_cline; [|exact H]. intros l Hl.
+    pose proof (line7_prel is_letter is_digit upper_ascii keywords l) as R. revert Hl.
+    induction R as [|p p' a b Hp Hr IH]; intro Hl; [intros c []|].
+    intros c [Hc|Hc].
+    - subst c. destruct Hp as [Hp|(_ & u & Hu & Hp)]; subst p'.
+      + apply Hl. left. reflexivity.
+      + exists u. split; [eapply up_ascii; exact Hu|reflexivity].
+    - apply IH; [|exact Hc]. intros d Hd. apply Hl. right. exact Hd.
+  Qed.
+
+  Lemma ascl_cli : forall t, ascl t -> ascl (cli_fix is_letter is_digit is_space upper_ascii keywords t).
+  Proof. intros t H. unfold cli_fix. apply ascl_l007. apply ascl_l010. apply ascl_l003. apply ascl_l002. apply ascl_l001. exact H. Qed.
+
+  Lemma ascl_fmt : forall ind ls cur, ascl ind -> ascl cur -> (forall fl, In fl ls -> ascl (chars (snd fl))) ->
+    forall l, In l (fmt_lines is_space upper_ascii ind cur ls) -> ascl l.
+  Proof.
+    intros ind. induction ls as [|[flag x] r IH]; intros cur Hi Hc Hls l Hl; [destruct Hl|]. cbn [fmt_lines] in Hl.
+    assert (Hr : forall fl, In fl r -> ascl (chars (snd fl))) by (intros l0 H0; apply Hls; right; exact H0).
+    assert (Hx : ascl (chars x)) by (apply (Hls (flag, x)); left; reflexivity).
+    destruct flag.
+    - destruct (trim_code is_space x) as [|c tr] eqn:E; [exact (IH cur Hi Hc Hr l Hl)|].
+      assert (Hn : ascl (fmt_next_indent upper_ascii ind cur (chars (c :: tr)))).
+      { unfold fmt_next_indent. destruct (existsb _ fmt_reset); [intros z []|]. destruct (existsb _ fmt_indent); [exact Hi|].
+        destruct (existsb _ fmt_reset2); [intros z []|exact Hc]. }
+      destruct Hl as [Hl|Hl]; [|eapply IH; [exact Hi|exact Hn|exact Hr|exact Hl]]. subst. intros z Hz. apply in_app_or in Hz. destruct Hz as [Hz|Hz].
+      + apply Hn. exact Hz.
+      + revert z Hz. eapply ascl_chars_incl; [|exact Hx]. intros p Hp. rewrite <- E in Hp. unfold trim_code in Hp.
+        apply trim_r_incl in Hp. apply trim_l_incl in Hp. exact Hp.
+    - destruct Hl as [Hl|Hl]; [subst; exact Hx|exact (IH cur Hi Hc Hr l Hl)].
+  Qed.
+
+  Lemma ascl_format : forall tab spaces final t, ascl t -> ascl (format_sql is_space upper_ascii tab spaces final t).
+  Proof.
+    intros tab spaces final t H. unfold format_sql.
+    set (ind := if spaces then repeat spc tab else [asc 9]).
+    assert (Hi : ascl ind).
+    { unfold ind. destruct spaces.
+      - intros c Hc. apply repeat_spec in Hc. subst. apply ascc_spc.
+      - intros c Hc. cbn in Hc. destruct Hc as [Hc|[]]. subst. exists 9. split; reflexivity. }
+    set (f := join_nl (fmt_lines is_space upper_ascii ind [] (clines t))).
+    assert (Hf : ascl f).
+    { unfold f. apply ascl_join. intros l Hl. eapply ascl_fmt; [exact Hi|exact ascl_nil| |exact Hl]. intros fl Hfl c Hc.
+      apply in_map_iff in Hc. destruct Hc as (p & Ep & Hp). subst. apply H. eapply clines_in_text; eassumption. }
+    destruct (final && negb (ends_nl f) && end_code (lex_end SCode t)); [|exact Hf]. unfold ascl. intros c Hc. apply in_app_or in Hc. destruct Hc as [Hc|Hc]; [apply Hf; exact Hc|]. cbn in Hc. destruct Hc as [Hc|[]]. subst. apply ascc_nlc.
+  Qed.
+End A7.
